@@ -225,15 +225,19 @@ class Extract:
          kind 'call'   obj = call terminator (result of the call is asked)
          kind 'phi'    obj = local with several definitions
          kind 'place'  obj = Place with projections that are not understood
-       returning None makes the node unknown."""
+       returning None makes the node unknown.
+       `at` = (bb, stmt index) of the use: a local with several definitions is resolved to the single definition that reaches
+       the use (block-level reaching definitions); without a position, or with several reaching definitions, it is unknown."""
 
-    def __init__(self, prog, pv, leaf=None, max_depth=60):
+    def __init__(self, prog, pv, leaf=None, max_depth=80):
         self.prog = prog
         self.pv = pv
         self.leaf = leaf or (lambda ex, body, kind, obj: None)
         self.max_depth = max_depth
+        self._memo = {}
+        self._active = set()
 
-    def operand(self, body, op, depth=0):
+    def operand(self, body, op, depth=0, at=None):
         if op.kind == "const":
             c = op.const
             if c.get("int") is not None:
@@ -246,68 +250,118 @@ class Extract:
             if c["ty"] == "bool":
                 return C(1 if c["val"] == "true" else 0)
             return ("u", "const %s" % c.get("val"))
-        return self.place(body, op.place, depth)
+        return self.place(body, op.place, depth, at)
 
-    def place(self, body, pl, depth=0):
+    def place(self, body, pl, depth=0, at=None):
         if depth > self.max_depth:
             return ("u", "depth")
         fields = [e for e in pl.fields() if e != "*"]
         if not fields:
-            return self.local(body, pl.local, depth)
+            return self.local(body, pl.local, depth, at)
         # (checked arithmetic result).0
         if len(fields) == 1 and fields[0][0] == "f" and fields[0][1] == "0":
-            ds = self.pv.defs(body).get(pl.local, [])
-            if len(ds) == 1 and ds[0][0] == "assign" and ds[0][2].rv["k"] == "bin" and ds[0][2].rv["op"].endswith("WithOverflow"):
-                return self.rvalue(body, ds[0][2], depth + 1)
+            d = self.reaching_def(body, pl.local, at)
+            if d is not None and d[0] == "assign" and d[2].rv["k"] == "bin" and d[2].rv["op"].endswith("WithOverflow"):
+                return self.rvalue(body, d[2], depth + 1, d[1])
+        self._at = at
         r = self.leaf(self, body, "place", pl)
         return r if r is not None else ("u", "projection %r" % (pl,))
 
-    def local(self, body, l, depth=0):
+    def reaching_def(self, body, l, at):
+        """the unique definition (kind, pos, d) of local l that reaches position `at`; None if there is none or several"""
+        ds = self.pv.defs(body).get(l, [])
+        if len(ds) == 1:
+            return ds[0]
+        if not ds or at is None:
+            return None
+        ubb, uidx = at
+        # a definition earlier in the same block wins
+        same = [d for d in ds if d[1][0] == ubb and d[1][1] < uidx]
+        if same:
+            return max(same, key=lambda d: d[1][1])
+        def_blocks = {d[1][0] for d in ds}
+        reach = []
+        for d in ds:
+            dbb = d[1][0]
+            later_same = [x for x in ds if x is not d and x[1][0] == dbb and x[1][1] > d[1][1]]
+            if later_same:
+                continue  # overwritten in its own block
+            # blocks reachable from the end of dbb without passing another defining block
+            seen = set()
+            st = list(body.succ[dbb])
+            hit = False
+            while st:
+                x = st.pop()
+                if x == ubb:
+                    hit = True
+                    break
+                if x in seen or (x in def_blocks):
+                    # a defining block kills the value (x == dbb on a back edge also redefines)
+                    continue
+                seen.add(x)
+                st.extend(body.succ[x])
+            if hit:
+                reach.append(d)
+        return reach[0] if len(reach) == 1 else None
+
+    def local(self, body, l, depth=0, at=None):
         if depth > self.max_depth:
             return ("u", "depth")
         ds = self.pv.defs(body).get(l, [])
+        key = (body.id, l, at if len(ds) > 1 else None)
+        if key in self._memo:
+            return self._memo[key]
+        if key in self._active:
+            return ("u", "local _%d is defined in terms of itself (loop-carried)" % l)
+        self._active.add(key)
+        try:
+            r = self._local(body, l, depth, at, ds)
+        finally:
+            self._active.discard(key)
+        self._memo[key] = r
+        return r
+
+    def _local(self, body, l, depth, at, ds):
         if not ds:
             if 1 <= l <= body.nargs:
                 r = self.leaf(self, body, "param", (l, ()))
                 return r if r is not None else S("%s#p%d" % (body.short, l))
             return ("u", "undefined local _%d" % l)
         if len(ds) > 1:
-            # a value re-assigned the same expression on all definitions is still that expression
             r = self.leaf(self, body, "phi", l)
             if r is not None:
                 return r
-            es = []
-            for kind, pos, d in ds:
-                es.append(self.rvalue(body, d, depth + 1) if kind == "assign" else self.call(body, d, depth + 1))
-            if all(equal(es[0], e) for e in es[1:]):
-                return es[0]
-            return ("u", "local _%d has %d different definitions" % (l, len(ds)))
-        kind, pos, d = ds[0]
+            d = self.reaching_def(body, l, at)
+            if d is None:
+                return ("u", "local _%d has %d definitions and no unique one reaches the use" % (l, len(ds)))
+        else:
+            d = ds[0]
+        kind, pos, dd = d
         if kind == "call":
-            return self.call(body, d, depth + 1)
-        return self.rvalue(body, d, depth + 1)
+            return self.call(body, dd, depth + 1, pos)
+        return self.rvalue(body, dd, depth + 1, pos)
 
-    def rvalue(self, body, st, depth):
+    def rvalue(self, body, st, depth, at=None):
         rv = st.rv
         k = rv["k"]
         if k == "use":
-            return self.operand(body, rv["op"], depth)
+            return self.operand(body, rv["op"], depth, at)
         if k == "cast":
             kind = rv.get("kind", "")
-            src = self.operand(body, rv["op"], depth)
+            src = self.operand(body, rv["op"], depth, at)
             if "FloatToInt" in kind:
                 return F("toint", src)
             return src
         if k == "ref":
-            return self.place(body, rv["place"], depth)
+            return self.place(body, rv["place"], depth, at)
         if k == "un":
-            o = self.operand(body, rv["o"], depth)
+            o = self.operand(body, rv["o"], depth, at)
             if rv["op"] == "Neg":
                 return ("neg", o)
             return F(rv["op"].lower(), o)
         if k == "bin":
-            a = self.operand(body, rv["l"], depth)
-            b = self.operand(body, rv["r"], depth)
+            a = self.operand(body, rv["l"], depth, at)
+            b = self.operand(body, rv["r"], depth, at)
             op = rv["op"]
             base = re.sub(r"(WithOverflow|Unchecked)$", "", op)
             isf = rv.get("lty") in FLOAT_TYS
@@ -321,30 +375,32 @@ class Extract:
                 return div(a, b) if isf else F("idiv", a, b)
             return F(base.lower(), a, b)
         if k == "agg" and rv.get("agg") == "tuple" and len(rv["ops"]) == 1:
-            return self.operand(body, rv["ops"][0], depth)
+            return self.operand(body, rv["ops"][0], depth, at)
         return ("u", "rvalue %s" % k)
 
-    def call(self, body, t, depth):
+    def call(self, body, t, depth, at=None):
+        self._at = at
         r = self.leaf(self, body, "call", t)
         if r is not None:
             return r
         c = t.callee
         nm = c.name or ""
+        A = lambda x: self.operand(body, x, depth, at)
         if c.method in FLOAT_FNS and re.search(r"\bf(32|64)\b", nm) and len(t.args) == 1:
-            return F(FLOAT_FNS[c.method], self.operand(body, t.args[0], depth))
+            return F(FLOAT_FNS[c.method], A(t.args[0]))
         if c.method == "recip" and len(t.args) == 1:
-            return div(C(1), self.operand(body, t.args[0], depth))
+            return div(C(1), A(t.args[0]))
         if c.method == "mul_add" and len(t.args) == 3:
-            return add(mul(self.operand(body, t.args[0], depth), self.operand(body, t.args[1], depth)), self.operand(body, t.args[2], depth))
+            return add(mul(A(t.args[0]), A(t.args[1])), A(t.args[2]))
         if c.method == "powi" and len(t.args) == 2 and t.args[1].kind == "const" and t.args[1].int_value() is not None and 0 <= t.args[1].int_value() <= 6:
-            base = self.operand(body, t.args[0], depth)
+            base = A(t.args[0])
             out = C(1)
             for _ in range(t.args[1].int_value()):
                 out = mul(out, base)
             return out
         if c.trait in ("std::ops::Add", "std::ops::Sub", "std::ops::Mul", "std::ops::Div", "std::ops::Neg") and re.search(r"f32|f64", c.def_args or nm):
-            a = [self.operand(body, x, depth) for x in t.args]
+            a = [A(x) for x in t.args]
             return {"std::ops::Add": add, "std::ops::Sub": sub, "std::ops::Mul": mul, "std::ops::Div": div}[c.trait](*a) if c.trait != "std::ops::Neg" else ("neg", a[0])
         if c.method in TRANSPARENT_METHODS and len(t.args) == 1 and re.search(r"\b(f32|f64|u8|u16|u32|u64|usize|i32|i64)\b", (c.def_args or "") + nm):
-            return self.operand(body, t.args[0], depth)
+            return A(t.args[0])
         return ("u", "call %s" % (c.res or c.name))
